@@ -218,6 +218,28 @@ def build(reg, src):
         return And(key_ok(s, dels[0]), s.g('cache_cleared') >= 1)
     reg.fn(KI + '__delitem__', setup=ki_setup, requires=[c03.inv_k], returns=None, ensures=[ki_del_post, c03.pres_k])
 
+    # ---------------- _resolve_fn: a symbol bound to a Python callable (a bare KGLambda, e.g. imported by .py) resolves to that
+    # callable, whatever the symbol - including the reserved x, y, z of a function that received it as an argument
+    def resolve_setup(eng, st):
+        ki_setup(eng, st)
+        st.env.pop('k', None)
+        st.env.pop('v', None)
+        f = VOpaque(hint='f', nonnull=True)
+        st.env['f'] = f
+        st.assume(f.pred('isinst:KGSym').t)
+        st.env['f_args'] = VOpaque(hint='f_args', nonnull=True)
+        st.env['f_arity'] = fresh(Int, 'f_arity')
+
+    def resolve_post(s, r):
+        looked = s.st.ghost.get('ki_lookup')
+        if looked is None or not isinstance(r, VTuple) or len(r.items) != 3:
+            return VBool(looked is None)
+        kk, val = looked.items
+        return Implies(And(same(kk, s._entry['f']), val.pred('isinst:KGLambda'), Not(val.pred('isinst:KGFn'))),
+                       And(same(r.items[0], val), same(r.items[1], s.f_args0), VBool(r.items[2].t == s.f_arity0.t) if isinstance(r.items[2], VInt) else VBool(False)))
+    reg.fn(KI + '_resolve_fn', setup=resolve_setup, requires=[c03.inv_k], returns='opaque', ensures=[resolve_post, c03.pres_k],
+           modifies=c03.eff_k, idempotent_effects=True)
+
     # ghost logs at the context calls (bookkeeping only)
     reg.fns[KC + '__setitem__'].ghost_at_call = lambda eng, st, s, r: 'ctx_sets' in st.ghost and st.ghost.__setitem__('ctx_sets', VList(st.ghost['ctx_sets'].items + [VTuple([s.k, s.v])]))
     reg.fns[KC + '__delitem__'].ghost_at_call = lambda eng, st, s, r: 'ctx_dels' in st.ghost and st.ghost.__setitem__('ctx_dels', VList(st.ghost['ctx_dels'].items + [s.k]))
@@ -239,6 +261,7 @@ def build(reg, src):
     from replay import c09 as rp
     reg.replays.append((r'KGLambda', rp.replay_lambda))
     reg.replays.append((r'KGFnWrapper', rp.replay_wrapper))
+    reg.replays.append((r'_resolve_fn', rp.replay_resolve))
     reg.replays.append((r'KlongInterpreter\.__(set|get|del)item__', rp.replay_items))
 
 
